@@ -496,10 +496,15 @@ def mk_roundtrip(spec):
         total = 0
         for z in sizes:
             total = C.binop("+", total, z)
-        net = X.mk_param_net(E, "net", leaves)
+        # the module also holds a NON-Param variable (BatchNorm statistics, action_scale / action_bias of the tanh
+        # policy heads): documented "Only variables of the type nnx.Param will be extracted / updated"
+        stat = T.fresh_tensor("non_param_variable", (E.dim("d_stat", 1),), REAL)
+        net = X.mk_param_net(E, "net", leaves, other=[stat])
         p = T.fresh_tensor("params", (total,), REAL)
         E.call(Q + "set_params", net, p)
         new = net.fields["$leaves"]
+        kept = len(net.fields["$other"]) == 1 and net.fields["$other"][0] is stat
+        (E.st.ok if kept else (lambda nm: E.st.fail(nm, "set_params wrote a non-Param variable")))("set.non_param_variables_untouched")
         ok = len(new) == len(leaves) and all(isinstance(a, T.Tensor) and a.ndim == b.ndim and all(T.dim_eq(x, y) for x, y in zip(a.shape, b.shape)) for a, b in zip(new, leaves))
         if not ok:
             E.st.fail("set.leaf_shapes_kept", str([getattr(a, "shape", None) for a in new]))
@@ -513,7 +518,7 @@ def mk_roundtrip(spec):
         back = E.call(Q + "flat_params", net)
         tensor_eq(E, "roundtrip.flat_of_set_is_identity", back, p, using=[])
         # the other direction: reading, then writing back, changes no parameter
-        net2 = X.mk_param_net(E, "net2", leaves)
+        net2 = X.mk_param_net(E, "net2", leaves, other=[stat])
         E.call(Q + "set_params", net2, E.call(Q + "flat_params", net2))
         for q, (a, b) in enumerate(zip(net2.fields["$leaves"], leaves)):
             tensor_eq(E, f"roundtrip.set_of_flat_keeps_leaf{q}", a, b, using=[])
